@@ -418,50 +418,58 @@ func (sc *script) anyOpen(rnd *rand.Rand) int {
 
 func (sc *script) run(steps int) {
 	r := sc.rnd
-	for i := 0; i < steps && sc.nextH < 11; i++ {
+	for i := 0; i < steps; i++ {
+		canBegin := sc.nextH < 11 // TraceCS has 12 handles
 		switch x := r.Intn(20); {
-		case x < 2:
-			if sc.writerOpen() == 0 {
-				sc.begin(true)
-			} else {
-				sc.begin(false)
+		case x < 13:
+			// prefer the writer: most of the modelled work is done in the update transaction
+			h := sc.writerOpen()
+			if h == 0 || r.Intn(4) == 0 {
+				h = sc.anyOpen(r)
 			}
-		case x < 12:
-			h := sc.anyOpen(r)
-			if h == 0 {
-				sc.begin(r.Intn(3) > 0 && sc.writerOpen() == 0)
+			if h == 0 || (canBegin && r.Intn(12) == 0) {
+				if !canBegin {
+					sc.other()
+					continue
+				}
+				sc.begin(sc.writerOpen() == 0 && r.Intn(5) > 0)
 				continue
 			}
 			t := sc.open[h]
 			k := 1 + r.Intn(nKeys)
-			switch y := r.Intn(10); {
+			_, present := t.view[k]
+			switch y := r.Intn(20); {
 			case y < 3:
 				sc.get1(h, k)
-			case y < 5 && t.upd:
+			case y < 9 && t.upd:
 				sc.out(h, k, r.Intn(4))
-			case y < 7 && t.upd:
-				if _, ok := t.view[k]; ok {
-					if !t.hasOff[k] || r.Intn(3) == 0 {
-						sc.get1(h, k) // needs the offset
-						t.hasOff[k] = true
-					}
-					// otherwise the offset returned by the previous Update is used
-					if r.Intn(3) > 0 {
-						sc.upd(h, k, r.Intn(4))
-						if r.Intn(2) == 0 {
-							sc.upd(h, k, r.Intn(4)) // update of the updated record
-						}
-					} else {
-						sc.del(h, k)
+			case y < 15 && t.upd && present:
+				if !t.hasOff[k] || r.Intn(3) == 0 {
+					sc.get1(h, k) // needs the offset
+					t.hasOff[k] = true
+				}
+				// otherwise the offset returned by the previous Update is used
+				if r.Intn(3) > 0 {
+					sc.upd(h, k, r.Intn(4))
+					switch r.Intn(3) { // use the offset Update returned
+					case 0:
+						sc.upd(h, k, r.Intn(4)) // update of the updated record
+					case 1:
+						sc.del(h, k) // erase of the updated record
 						t.hasOff[k] = false
 					}
+				} else {
+					sc.del(h, k)
+					t.hasOff[k] = false
 				}
-			case y < 9:
+			case y < 18:
 				sc.scan(h, r.Intn(2) == 0)
-			default:
+			case y == 18 || !canBegin:
 				// (ended transactions are not used again: the language level
 				// (SuTran) refuses that before it reaches IDbms)
 				sc.end(h, r.Intn(4) > 0)
+			default:
+				sc.get1(h, k)
 			}
 		default:
 			sc.other()
